@@ -20,7 +20,10 @@ RULE = ("time grids (odd/even lengths 2..40, four sampling steps, zero / positiv
         "both classes; compared: freqs, amps, phases, rms, values on the own grid, on sub-windows, on windows shifted "
         "by whole samples beyond one period, off-grid times, and re-gridding requests sharing some but not all of "
         "(start, number of points, dt, end) with the own grid or the generated full trace (same start+count / other dt, "
-        "same dt+count / other start, same start+end / other count, supersets, one-sample grids); a case is non-trivial when the basis is non-empty; "
+        "same dt+count / other start, same start+end / other count, supersets, one-sample grids); objects whose basis "
+        "(amps, phases, also rms and - full class - freqs) is REPLACED after they were evaluated, then evaluated through "
+        "with_times-derived objects and Antenna.make_noise, against the currently published basis, a never-evaluated "
+        "object given that basis, and the model given that basis; a case is non-trivial when the basis is non-empty; "
         "distinct = distinct (class, grid, band, spec, uniqueness) tuples")
 LEVEL_TEXT = ("theorems (cosine-sum form of both classes, band membership, irfft = cosine sum for bins strictly between "
               "DC and Nyquist, half-weight Nyquist bin, periodic interpolation consistent iff the period is n*dt, unit "
@@ -314,6 +317,27 @@ def correspondence(run):
         exps.append(exp)
         descs.append((case["cls"], case["n"], case["dt"], case["t0"], case["fmin"], case["fmax"], tuple(case["spec"]),
                       case["uniq"], case["rms"], case["T"], case["R"]))
+        # the basis of the (already evaluated) object is replaced, as io.py does when it replays stored noise bases;
+        # objects derived by with_times must then produce the waveform of the CURRENT basis = the model given that basis
+        if nz is not None and len(nz.freqs) > 0 and run.rng.random() < 0.4:
+            N_ = len(nz.freqs)
+            amp2, ph2 = tapes(run)
+            new_amps = np.array(amp2[:N_], dtype=float)
+            new_amps[np.array(nz.freqs) == 0] = 0
+            nz.amps = new_amps
+            nz.phases = np.array(ph2[:N_]) * 2 * np.pi
+            run.count("basis_replaced_" + case["cls"])
+            vals2, ts2 = [], []
+            for name, tt in [("same", times)] + windows(run, case, times)[:2]:
+                v = regrid_values(nz, tt)
+                vals2 += [float(x) for x in v]
+                ts2 += [float(x) for x in tt]
+            case2 = dict(case, spec=["tape"])
+            reqs.append(req_for(case2, times, amp2[:200], ph2[:200], ts2))
+            exps.append(([float(x) for x in nz.freqs], [float(x) for x in nz.amps], [float(x) for x in nz.phases],
+                         float(nz.rms), vals2))
+            descs.append(("basis-replaced", case["cls"], case["n"], case["dt"], case["t0"], case["fmin"], case["fmax"],
+                          case["uniq"], case["rms"], case["T"], case["R"]))
     replies = fw.run_driver("C17", reqs)
     ok = True
     for rq, exp, rp, d in zip(reqs, exps, replies, descs):
@@ -363,6 +387,27 @@ def cos_sum(nz, cls, t, t_ref):
     for f, a, p in zip(nz.freqs, nz.amps, nz.phases):
         tot += a * np.cos(2 * np.pi * f * (t - t_ref) + sign * p)
     return nz.rms * math.sqrt(2 / n) * tot
+
+
+def basis_ref(obj, cls, times, tt, k4corr):
+    """what the basis CURRENTLY published by `obj` prescribes at absolute times tt (full class: the cosine sum; FFT
+    class: the cosine sum at the grid times, joined linearly); `k4corr` applies the known half-weight Nyquist term"""
+    tt = np.asarray(tt, dtype=float)
+    N = len(obj.freqs)
+    t_ref = times[0] if cls == "fft" else 0.0
+    if cls == "full" or N == 0:
+        return cos_sum(obj, cls, tt, t_ref)
+    dte = float(obj._dt)
+    x = (tt - times[0]) / dte
+    j = np.floor(x + 1e-9)
+    w = np.clip(x - j, 0.0, 1.0)
+    lo, hi = int(j.min()), int(j.max()) + 1
+    jj = np.arange(lo, hi + 1)
+    S = cos_sum(obj, cls, times[0] + jj * dte, t_ref)
+    if k4corr:
+        S = S - obj.rms * math.sqrt(2 / N) * 0.5 * obj.amps[-1] * math.cos(obj.phases[-1]) * (-1.0) ** (jj % 2)
+    a = (j - lo).astype(int)
+    return (1 - w) * S[a] + w * S[a + 1]
 
 
 def in_k4(case, nz):
@@ -539,6 +584,58 @@ def oracle(inp):
     if np.max(np.abs(np.array(nz4.values) - v)) > tol if N else False:
         out.append(("same-basis", float(np.max(np.abs(np.array(nz4.values) - v))), 0.0,
                     "an object given the same basis produces a different waveform", None))
+    # (9) the basis of an evaluated object is replaced (io.py replays stored noise bases this way): every object
+    #     derived by with_times afterwards - also through Antenna.make_noise - must produce the waveform of the basis
+    #     that is published NOW, and agree with a never-evaluated object given that basis
+    if N:
+        rs = np.random.RandomState(inp["seed"] % (2 ** 31 - 1) + 1)
+
+        def new_basis(obj):
+            a2 = rs.uniform(0.2, 2.0, N)
+            a2[np.array(obj.freqs) == 0] = 0
+            obj.amps = a2
+            obj.phases = rs.uniform(0, 2 * np.pi, N)
+            if inp.get("replace_rms"):
+                obj.rms = float(obj.rms) * 1.7
+            if cls == "full" and inp.get("replace_freqs"):
+                obj.freqs = np.sort(rs.uniform(case["fmin"], case["fmax"], N))
+
+        def check_derived(obj, make, label):
+            for k in [0] + list(inp["shifts"][:1]):
+                tt = times + k * dt
+                got = np.array(make(tt).values)
+                scale = obj.rms * math.sqrt(2 / N) * float(np.sum(np.abs(obj.amps)))
+                tolr = (1e-9 * scale + 1e-300) * (1 + abs(k) / 10)
+                ref0 = basis_ref(obj, cls, times, tt, False)
+                if np.max(np.abs(got - ref0)) > tolr:
+                    i = int(np.argmax(np.abs(got - ref0)))
+                    key = "K4" if (in_k4(case, obj) and np.max(np.abs(got - basis_ref(obj, cls, times, tt, True))) <= tolr) \
+                        else None
+                    out.append(("basis-replaced", [label, k, i, float(got[i])], [label, k, i, float(ref0[i])],
+                                "after the basis of an evaluated object was replaced, %s does not produce the waveform "
+                                "of the currently published basis" % label, key))
+                    return
+        np.random.seed(inp["seed"])
+        nzr, _ = construct(case)
+        _ = nzr.values, nzr.with_times(times + dt).values      # evaluated before the replacement
+        new_basis(nzr)
+        check_derived(nzr, nzr.with_times, "with_times of the object")
+        nzf, _ = construct(case)                                 # never evaluated, given the same basis
+        nzf.freqs, nzf.amps, nzf.phases, nzf.rms = nzr.freqs.copy(), nzr.amps.copy(), nzr.phases.copy(), nzr.rms
+        a_, b_ = np.array(nzr.with_times(times).values), np.array(nzf.with_times(times).values)
+        if np.max(np.abs(a_ - b_)) > tol * 10 + 1e-9 * float(np.max(np.abs(b_)) + 1e-300):
+            out.append(("basis-replaced", float(np.max(np.abs(a_ - b_))), 0.0,
+                        "an evaluated object whose basis was replaced and a fresh object given that basis disagree", None))
+        if cls == "fft" and case["rms"] is not None:
+            from pyrex.antenna import Antenna
+            np.random.seed(inp["seed"])
+            ant = Antenna([0.0, 0.0, -100.0], freq_range=(case["fmin"], case["fmax"]), noise_rms=case["rms"],
+                          unique_noise_waveforms=case["uniq"], noisy=True)
+            _ = ant.make_noise(times).values
+            master = ant._noise_master
+            if len(master.freqs) == N:
+                new_basis(master)
+                check_derived(master, ant.make_noise, "Antenna.make_noise after its master's basis was replaced")
     # (8) reading the values again (fresh evaluation) gives the same numbers
     again = np.array(nz.with_times(times).values)
     if np.max(np.abs(again - v)) > tol:
@@ -568,7 +665,7 @@ def gen_oracle_input(run, i):
     case["band"] = "oracle"
     return {"case": case, "seed": rng.randrange(2 ** 31),
             "shifts": [rng.randint(-3 * case["n"], 3 * case["n"]), rng.randint(1, max(1, case["n"] - 1))],
-            "regrids": regrid_specs(run, case, 6)}
+            "regrids": regrid_specs(run, case, 6), "replace_rms": rng.random() < 0.3, "replace_freqs": rng.random() < 0.3}
 
 
 def report(run, inp, res):
